@@ -28,6 +28,7 @@ structure Cfg where
   u2 : Bool := false  -- `Unlock` dereferences a nil private key for a derive-on-unlock entry of a watch-only account
   o1 : Bool := false  -- `cryptoKeyScript` is the all-zero key (never restored by `Unlock`/`loadManager`) (O1)
   t1 : Bool := false  -- `deletePrivateKeys` leaves secret taproot script rows in place
+  l1 : Bool := false  -- `NewScopedKeyManager` writes no `lastaccount` row: the first new account of the scope is 0 again
   deriving Repr, Inhabited, DecidableEq
 
 structure HD (K P : Type) where
